@@ -45,6 +45,7 @@ namespace {
         p.start_offset = c.start;
         p.rw_denom = c.rw;
         p.rw_seed = c.seed;
+        p.scan_atomic = ( c.opts & 1 ) == 0;
         return p;
     }
 
@@ -67,6 +68,8 @@ namespace {
         o << "seed " << c.seed << "\n";
         o << "start " << c.start << "\n";
         o << "rw " << c.rw << "\n";
+        if ( c.opts )
+            o << "opts " << c.opts << "\n";
         o << "sched";
         for ( auto const& p : c.sched )
             o << " " << p.first << ":" << p.second;
@@ -121,6 +124,8 @@ namespace {
                 l >> c.start;
             else if ( kw == "rw" )
                 l >> c.rw;
+            else if ( kw == "opts" )
+                l >> c.opts;
             else if ( kw == "sched" ) {
                 std::string tok;
                 while ( l >> tok ) {
